@@ -76,10 +76,49 @@ where
         let b = json_data.b;
         let cones = json_data.cones;
         let settings = settings.unwrap_or(json_data.settings);
+
+        // the file contents are untrusted.  Report malformed data as
+        // an error here, since the solver constructor would panic
+        check_json_problem_data(&P, &q, &A, &b, &cones)?;
+        settings
+            .validate()
+            .map_err(|e| io::Error::new(io::ErrorKind::InvalidData, e))?;
+
         let solver = Self::new(&P, &q, &A, &b, &cones, settings);
 
         Ok(solver)
     }
+}
+
+fn check_json_problem_data<T: FloatT>(
+    P: &CscMatrix<T>,
+    q: &[T],
+    A: &CscMatrix<T>,
+    b: &[T],
+    cones: &[SupportedConeT<T>],
+) -> Result<(), io::Error> {
+    let invalid = |msg: String| io::Error::new(io::ErrorKind::InvalidData, msg);
+
+    P.check_format().map_err(|e| invalid(format!("P: {}", e)))?;
+    A.check_format().map_err(|e| invalid(format!("A: {}", e)))?;
+
+    let p = cones.iter().fold(0, |acc, cone| acc + cone.nvars());
+
+    if !P.is_square() || P.ncols() != q.len() {
+        return Err(invalid("P and q incompatible dimensions.".to_string()));
+    }
+    if A.ncols() != q.len() {
+        return Err(invalid("A and q incompatible dimensions.".to_string()));
+    }
+    if A.nrows() != b.len() {
+        return Err(invalid("A and b incompatible dimensions.".to_string()));
+    }
+    if p != b.len() {
+        return Err(invalid(
+            "Constraint dimensions inconsistent with size of cones.".to_string(),
+        ));
+    }
+    Ok(())
 }
 
 fn sanitize_settings<T: FloatT>(settings: &mut DefaultSettings<T>) {
